@@ -16,6 +16,8 @@ pub struct TxP {
     pub segwit: bool,
     pub sig_lens: Vec<usize>,
     pub spk_lens: Vec<usize>,
+    /// the outputs are data carriers with long UTF-8 texts (refmodel::families::utf8_alignment_payloads) instead
+    pub text_outputs: bool,
     /// witness item lengths per input (used when segwit)
     pub wit: Vec<Vec<usize>>,
     pub sequence: u32,
@@ -28,7 +30,7 @@ pub struct TxP {
 
 impl TxP {
     pub fn base() -> TxP {
-        TxP { version: 1, segwit: false, sig_lens: vec![1], spk_lens: vec![25], wit: vec![], sequence: 0xffff_fffe, prev_index: 0, locktime: 0, value: 1000, wide: 0 }
+        TxP { version: 1, segwit: false, sig_lens: vec![1], spk_lens: vec![25], text_outputs: false, wit: vec![], sequence: 0xffff_fffe, prev_index: 0, locktime: 0, value: 1000, wide: 0 }
     }
     pub fn build(&self, seed: u8) -> Tx {
         let spk = |n: usize, k: usize| -> Vec<u8> {
@@ -48,7 +50,11 @@ impl TxP {
                 TxIn { prev_txid: txid, prev_index: self.prev_index.wrapping_add(i as u32), script_sig: vec![0x51; *l], sequence: self.sequence, witness }
             })
             .collect();
-        let outputs = self.spk_lens.iter().enumerate().map(|(k, l)| TxOut { value: self.value.wrapping_add(k as u64), script: spk(*l, k) }).collect();
+        let outputs = if self.text_outputs {
+            refmodel::families::utf8_alignment_payloads(200).into_iter().enumerate().map(|(k, (_, d))| TxOut { value: k as u64, script: script::op_return(&d) }).collect()
+        } else {
+            self.spk_lens.iter().enumerate().map(|(k, l)| TxOut { value: self.value.wrapping_add(k as u64), script: spk(*l, k) }).collect()
+        };
         Tx { version: self.version, segwit: self.segwit, inputs, outputs, locktime: self.locktime, wide: self.wide }
     }
 }
@@ -241,6 +247,12 @@ pub fn run() -> Report {
         p.segwit = true;
         p.wit = vec![vec![n, 3]];
         cases.push(Case { coin: "bitcoin", verify: true, txs: vec![p], hdr: None, n_blocks: 3, label: format!("witness_item_len={:#x}", n) });
+    }
+    // data-carrier outputs with long texts: multi-byte characters across every byte offset up to 200
+    for coin in ["bitcoin", "testnet3", "litecoin", "dogecoin"] {
+        let mut p = base.clone();
+        p.text_outputs = true;
+        cases.push(Case { coin, verify: coin != "testnet3", txs: vec![p], hdr: None, n_blocks: 3, label: "utf8 texts in data-carrier outputs".into() });
     }
     // items far beyond any reader buffer / chunk size: 1 MiB + 1 and 2.5 MiB scripts and witness items
     for n in [1_048_577usize, 2_621_440] {
